@@ -30,6 +30,9 @@ class _HardSigmoidFusionBase(pattern.RewriteRuleClassBase):
     ) -> MatchResult:
         check_result = MatchResult()
 
+        # HardSigmoid and HardSwish are defined for floating point tensors only
+        if x.dtype is None or not x.dtype.is_floating_point():
+            return check_result.fail("HardSigmoid/HardSwish require a floating point input")
         if not is_singleton_value(clip_min, 0.0, rtol=1e-4):
             return check_result.fail("Swish requires min value of 0 for clip")
         if not is_singleton_value(clip_max, 6.0, rtol=1e-4):
